@@ -5,17 +5,19 @@
      ext            the external parsers (mediacommon SPS/PPS/AudioSpecificConfig/StreamMuxConfig/MPEG-4 video
                     config validity, pkg/mikey) as oracle functions; every theorem holds for EVERY ext
      ord            the iteration order of the fmtp Go map of each format: any function returning a permutation
-     wf_fmt         "valid parameters" of each of the 22 formats (FmtRT.v): payload type in the range the
-                    selection switch wants, integers in [0,2^31), blobs accepted by the external parser and
-                    re-read by it to the same value, static payload types with their mandated parameters
-     wf_desc        a description of such formats with distinct payload types per media, alphanumeric media
+     wf_fmt         "valid parameters" of each of the 22 formats (FmtRT.v): payload type where the selection
+                    switch wants it (96..127; H264 also 35; any for codec names the switch takes with any
+                    payload type: opus mono/stereo, PCMA, L8, L16), integers in [0,2^31), blobs accepted by the
+                    external parser and re-read by it to the same value, static payload types with their
+                    mandated parameters
+     wf_desc        a description of such formats (formats of one media sharing a payload type are equal), alphanumeric media
                     ids (all or none, distinct), at least one forward media if there is a back channel,
                     FEC groups naming existing ids, a title other than " ", and no CR/LF in any string
      marshal_text   description.Session.Marshal (through pion's Marshal)
      parse_text     sdpunmarshaler.Unmarshal followed by Session.Unmarshal2 *)
 From Coq Require Import String Permutation.
 From GVL Require Import NList.
-From GV_sdp Require Import Str StrP Fmt FmtP FmtRT FmtRT2 FmtRT3 Model DescP MediaP SessP TextP Proofs TotalP DetP RefuteP.
+From GV_sdp Require Import Str StrP Fmt FmtP FmtRT FmtRT2 FmtRT3 Model DescP MediaP SessP TextP Proofs TotalP DetP AcceptP AcceptP2 AcceptP3 RefuteP.
 Open Scope N_scope.
 
 (* ---- format layer ---- *)
@@ -100,17 +102,42 @@ Theorem C05_sdp_reparse_regression_startcode : exists d1 t1,
 Proof. exact reparse_witness_startcode_stable. Qed.
 Print Assumptions C05_sdp_reparse_regression_startcode.
 
-(* The strongest fixpoint statement proved: an accepted description that is well-formed re-marshals
-   and re-parses to itself.  MISSING for the full clause: accepted descriptions outside wf_desc, i.e.
-   (a) the two refuted shapes above, (b) blobs for which the external parser's contract
-   (unmarshal (marshal c) = c) is not known, (c) harmless normalisations (e.g. MPEG4Audio
-   ProfileLevelID 0 is written as 1) under which only the interface observables are preserved; these are
-   covered by the harness's fixpoint oracle on every run, not by a theorem. *)
-Theorem C05_sdp_reparse_stable_partial : forall E ord text os d,
-  perm_fun ord -> parse_text E ord text os = Ok d -> wf_desc E d ->
-  forall os', exists t', marshal_text d = Ok t' /\ parse_text E ord t' os' = Ok d.
-Proof. exact reparse_stable_partial. Qed.
-Print Assumptions C05_sdp_reparse_stable_partial.
+(* THE FIXPOINT CLAUSE for the repaired code (replaces the former _refuted / _partial pair).
+   [ext_ok E]: the external parsers re-read their own canonical encodings
+     (x_asc b = Some c -> the Marshal bytes enc of c exist and x_asc enc = Some c; same for StreamMuxConfig
+     and mikey.Message) - a contract of mediacommon / pkg/mikey, checked by the harness's fixpoint oracle.
+   [normalize]: the single normalisation Marshal applies - MPEG4Audio ProfileLevelID 0 (the attribute was
+     absent: upstream's "legacy" case) is written as 1.  It leaves every interface observable (payload
+     type, clock rate, rtpmap, fmtp) unchanged, is the identity on every other format and is idempotent
+     (next theorem); the Example C05_example_legacy_aac shows that the statement without it is false.
+   Every accepted description - arbitrary bytes in, any map order, any url.Parse / ParseIP answers - can be
+   marshalled again and the result parses to (normalize d); from then on it is a fixed point. *)
+Theorem C05_sdp_reparse_stable : forall E ord text os d,
+  perm_fun ord -> ext_ok E -> parse_text E ord text os = Ok d ->
+  forall os', exists t', marshal_text d = Ok t' /\ parse_text E ord t' os' = Ok (normalize d).
+Proof. exact reparse_stable. Qed.
+Print Assumptions C05_sdp_reparse_stable.
+
+Theorem C05_sdp_reparse_fixpoint : forall E ord text os d,
+  perm_fun ord -> ext_ok E -> parse_text E ord text os = Ok d ->
+  forall os' os'', exists t' t'',
+    marshal_text d = Ok t' /\ parse_text E ord t' os' = Ok (normalize d) /\
+    marshal_text (normalize d) = Ok t'' /\ parse_text E ord t'' os'' = Ok (normalize d).
+Proof. exact reparse_fixpoint. Qed.
+Print Assumptions C05_sdp_reparse_fixpoint.
+
+Theorem C05_sdp_normalize_harmless : forall f,
+  (fmt_pt (norm_fmt f) = fmt_pt f /\ fmt_clock (norm_fmt f) = fmt_clock f /\
+   fmt_rtpmap (norm_fmt f) = fmt_rtpmap f /\ fmt_fmtp (norm_fmt f) = fmt_fmtp f) /\
+  norm_fmt (norm_fmt f) = norm_fmt f.
+Proof. exact norm_fmt_harmless. Qed.
+Print Assumptions C05_sdp_normalize_harmless.
+
+(* what the parser builds is well-formed: the bridge between the two clauses of C05 *)
+Theorem C05_sdp_accepted_is_wellformed : forall E ord text os d,
+  perm_fun ord -> ext_ok E -> parse_text E ord text os = Ok d -> wf_desc E (normalize d).
+Proof. exact accepted_wf. Qed.
+Print Assumptions C05_sdp_accepted_is_wellformed.
 
 (* ---- non-vacuity ---- *)
 (* a description with two medias, ids, a back channel, SAVP, a FEC group, H264 with parameter sets,
@@ -124,6 +151,14 @@ Example C05_example_order :
   unmarshal_kind E_sps KVP9 (mkCtx $"video" 96 $"90000" $"vp9" $"VP9/90000" [($"profile-id", $"2"); ($"max-fr", $"30"); ($"max-fs", $"3600")])
   = Some (FVP9 (mkVP9 96 (Some 30) (Some 3600) (Some 2))).
 Proof. exact ex_order. Qed.
+(* the external-parser contract is satisfiable, and the normalisation is necessary: a legacy AAC
+   description (no profile-level-id) parses with ProfileLevelID 0 and comes back with 1 *)
+Example C05_example_ext_ok : ext_ok E_aac /\ ext_ok E_sps /\ ext_ok E_none.
+Proof. exact ext_ok_examples. Qed.
+Example C05_example_legacy_aac : exists d1 t1,
+  parse_text E_aac ord_id w3_text [] = Ok d1 /\ marshal_text d1 = Ok t1 /\
+  parse_text E_aac ord_id t1 [] = Ok (normalize d1) /\ normalize d1 <> d1.
+Proof. exact legacy_aac_normalised. Qed.
 (* the identity is a legal iteration order *)
 Example C05_example_ord : perm_fun ord_id.
 Proof. intros l. apply Permutation_refl. Qed.
